@@ -48,6 +48,9 @@ Inductive hpc :=
 | HBlockChan (b : blk)  (* handleBlock, GetBlock mode: blockChan <- block *)
 | HCbDone               (* handleBatchDone, callback mode: BatchDoneFunc, then releaseCurrentBusy *)
 | HDoneChan             (* handleBatchDone, GetBlock mode: batchDoneChan <- struct{}{} *)
+| HFail                 (* handleBlock, callback mode, decode error: releaseCurrentBusy() done, about to
+                           return the error (SendError -> Stop).  In this window busy is free while the
+                           protocol is not yet stopped: another call can acquire it and queue a request *)
 | HDead.                (* recvLoop returned; doneChan closed *)
 
 Record st := {
@@ -73,6 +76,8 @@ Inductive label :=
 (* internal *)
 | LAcquire | LSendFail | LDeliver | LRvStart | LRvNoBlocks | LRvBlock | LRvDone
 | LDoneCase | LRecvExit | LWatch
+| LHandlerErr   (* the handler returns its error: SendError -> Stop, recvLoop returns *)
+| LQueue        (* SendMessage while the server has agency: the request is queued, never written *)
 | LFail.   (* the state timer of Busy/Streaming fires: SendError -> Stop *)
 
 Definition point_eqb (p q : point) := N.eqb (pslot p) (pslot q) && bytes_eqb (phash p) (phash q).
@@ -134,7 +139,7 @@ Definition deliver (s : st) (m : smsg) (r : list smsg) : st :=
   | PBusy, NoBlocks => upd (set_pst s1 PIdle) (pc s) HNoBlocks
   | PStreaming, Block None =>
       (* cbor/ledger decode error: callback mode releases busy, the error ends the protocol *)
-      if usecb s then die (set_busy s1 false false) else die s1
+      if usecb s then upd (set_busy s1 false false) (pc s) HFail else die s1
   | PStreaming, Block (Some b) => upd s1 (pc s) (if usecb s then HCbBlock b else HBlockChan b)
   | PStreaming, BatchDone => upd (set_pst s1 PIdle) (pc s) (if usecb s then HCbDone else HDoneChan)
   | _, _ => die (take s r (got s))   (* message not allowed in this state *)
@@ -230,6 +235,17 @@ Definition step (s : st) (l : label) : option st :=
           Some (upd (set_busy s false false) (CRet (GetBlock p) (RErr EShutdown)) HDead)
       | _, _ => None
       end
+  | LHandlerErr =>
+      match hp s with
+      | HFail => Some (die s)
+      | _ => None
+      end
+  | LQueue =>
+      match pc s, pst s with
+      | CSend c, (PBusy | PStreaming) =>
+          if stopped s then None else Some (upd s (CWaitStart c) (hp s))
+      | _, _ => None
+      end
   | LRecvExit =>
       match hp s with
       | HIdle => if stopped s then Some (upd s (pc s) HDead) else None
@@ -267,7 +283,7 @@ Fixpoint run (s : st) (ls : list label) : option st :=
 (* canonical internal scheduler, used to replay observed histories     *)
 
 Definition internals : list label :=
-  [LAcquire; LRvStart; LRvNoBlocks; LRvBlock; LRvDone; LDeliver; LSendFail; LDoneCase; LRecvExit; LWatch; LFail].
+  [LHandlerErr; LAcquire; LRvStart; LRvNoBlocks; LRvBlock; LRvDone; LDeliver; LSendFail; LDoneCase; LRecvExit; LWatch; LQueue; LFail].
 
 Fixpoint first_enabled (s : st) (ls : list label) : option st :=
   match ls with
@@ -280,8 +296,8 @@ Fixpoint first_enabled (s : st) (ls : list label) : option st :=
    request, so LWire may also be taken silently - but only when nothing else
    except the timer is enabled. *)
 Definition sched (s : st) : list label :=
-  [LAcquire; LRvStart; LRvNoBlocks; LRvBlock; LRvDone; LDeliver; LSendFail; LDoneCase; LRecvExit; LWatch]
-  ++ match pc s with CSend c => [LWire c] | _ => [] end ++ [LFail].
+  [LHandlerErr; LAcquire; LRvStart; LRvNoBlocks; LRvBlock; LRvDone; LDeliver; LSendFail; LDoneCase; LRecvExit; LWatch]
+  ++ match pc s with CSend c => [LWire c] | _ => [] end ++ [LQueue; LFail].
 
 (* fire observable o, after as many canonical internal steps as needed *)
 Fixpoint advance (fuel : nat) (s : st) (o : label) : option st :=
@@ -324,14 +340,28 @@ Definition stuck (fx : bool) (s : st) : bool :=
    and then be quiescent with nothing pending *)
 Record case := { c_prog : list call; c_script : list smsg; c_obs : list label; c_hung : bool }.
 
-Fixpoint replay (s : st) (obs : list label) : option st :=
+(* Linearisation.  Every observation except "wire" is logged by the goroutine that performs
+   the step, at the step.  The "wire" observation is logged by the PEER when it has read the
+   request: it happens-after the client's SendMessage (the LWire step) but is not ordered
+   with the client's later steps - when the protocol dies right after SendMessage the call
+   returns (and the next call may start) before the peer gets to read the request, or the
+   peer never reads it.  So a wire observation is matched against the model's FIFO log of
+   sent requests: if the model has already taken the LWire step (silently, through the
+   canonical scheduler) the observation is consumed without a step; [seenw] counts the
+   requests whose read has been observed. *)
+Fixpoint replay (s : st) (seenw : nat) (obs : list label) : option st :=
   match obs with
   | [] => Some s
-  | o :: r => match advance true 64 s o with Some s' => replay s' r | None => None end
+  | LWire c :: r =>
+      match nth_error (wire s) seenw with
+      | Some c' => if call_eqb c c' then replay s (S seenw) r else None
+      | None => match advance true 64 s (LWire c) with Some s' => replay s' (S seenw) r | None => None end
+      end
+  | o :: r => match advance true 64 s o with Some s' => replay s' seenw r | None => None end
   end.
 
 Definition check_case (c : case) : bool :=
-  match replay (init (c_prog c) (c_script c)) (c_obs c) with
+  match replay (init (c_prog c) (c_script c)) 0 (c_obs c) with
   | None => false
   | Some s =>
       let s' := settle true (64 + 4 * length (c_script c)) s in
